@@ -11,7 +11,8 @@ Element-wise operations, slices, gathers and reductions compose closures; nothin
 *model queries* are therefore quantifier-free), a `ForAll/Exists` otherwise.  A quantified scalar that the code branches
 on is named by a fresh Bool with a defining axiom (`Run.axiom`), so the path solver stays quantifier-free.
 
-Library facts stated here (trusted, each exercised against the real numpy by replay/c11_replay.py `np_model`):
+Library facts stated here (trusted; exercised against the real numpy/jax through the bounded model queries and the
+exhaustive small-scope enumerations of contracts/c11.py, whose verdicts are compared on the real functions):
   * boolean-mask read `a[m]` / write `a[m] = v`: order-preserving enumeration `sel : [0,cnt) -> {j | m[j]}` with inverse `rnk`;
   * `argsort`: a permutation `p` with inverse `q`, `x[p]` ascending, NaN last (stability is not modelled: any sorting
     permutation is allowed, which only over-approximates);
@@ -1270,7 +1271,7 @@ _orig_enumerate, _orig_list = M.BUILTINS['enumerate'].fn, M.BUILTINS['list'].fn
 
 
 def _b_enumerate(it, args, kw):
-    v = args[0]
+    v = _named_elements(it, args[0])
     start = args[1] if len(args) > 1 else kw.get('start', 0)
     if isinstance(v, NDArray) and v.rank >= 1 and conc(v.shape[0]) is None:
         snap = v.copy()
@@ -1283,6 +1284,40 @@ def _b_enumerate(it, args, kw):
     return _orig_enumerate(it, args, kw)
 
 
+def as_symlist(it, v):
+    """a symbolic rank-1 array as an array-list: a fresh z3 array A with the defining fact forall j. A[j] == v[j]
+    (deferred to the contract when Run.np_defer_facts is set)."""
+    run = it.run
+    cache = run.__dict__.setdefault('np_aslist', {})
+    hit = cache.get(id(v.fn))
+    if hit is not None and hit[0] is v.fn:
+        return hit[1]
+    arr = run.fresh('aslist', z3.ArraySort(z3.IntSort(), SORTS[v.dtype]))
+    f = v.fn
+    df = QA(v.shape[0], lambda j: arr[j] == f(j))
+    if getattr(run, 'np_defer_facts', False):
+        # proof engineering: the contract adds the defining fact where it is needed (Run.np_deferred) instead of
+        # exposing it to every later obligation of the path
+        run.__dict__.setdefault('np_deferred', []).append(df)
+    else:
+        fact(run, df)
+    r = SymList(zi(v.shape[0]), arr, v.dtype)
+    r.of_array = v.copy()
+    cache[id(v.fn)] = (v.fn, r)
+    return r
+
+
+def _named_elements(it, v):
+    """iterating a symbolic boolean array whose elements are quantified formulas: iterate the array-list view instead, so
+    that the loop body branches on (and invariants mention) the atoms A[j], never on a quantified formula"""
+    if isinstance(v, NDArray) and v.rank == 1 and conc(v.shape[0]) is None and not it.pure:
+        j = z3.Int('j!probe')
+        t = v.at(j)
+        if z3.is_expr(t) and E._has_quantifier(t):
+            return as_symlist(it, v)
+    return v
+
+
 def _b_list(it, args, kw):
     if args and isinstance(args[0], NDArray):
         v = args[0]
@@ -1291,19 +1326,7 @@ def _b_list(it, args, kw):
             return xs
         if v.rank != 1 or it.pure:
             raise Unsupported('list() of a symbolic rank-%d array' % v.rank)
-        run = it.run
-        arr = run.fresh('aslist', z3.ArraySort(z3.IntSort(), SORTS[v.dtype]))
-        f = v.fn
-        df = QA(v.shape[0], lambda j: arr[j] == f(j))
-        if getattr(run, 'np_defer_facts', False):
-            # proof engineering: the contract adds the defining fact where it is needed (Run.np_deferred) instead of
-            # exposing it to every later obligation of the path
-            run.__dict__.setdefault('np_deferred', []).append(df)
-        else:
-            fact(run, df)
-        r = SymList(zi(v.shape[0]), arr, v.dtype)
-        r.of_array = v.copy()
-        return r
+        return as_symlist(it, v)
     return _orig_list(it, args, kw)
 
 
@@ -1382,3 +1405,74 @@ def _b_round(it, args, kw):
 
 
 M.BUILTINS['round'] = Builtin('round', _b_round)
+
+
+# ---- zip over symbolic sequences: an array-list of tuples (consumed by a `for` loop contract or by a comprehension, for which
+#      the engine's definitional filter/map encoding applies); zip truncates to the shortest argument
+_orig_zip = M.BUILTINS['zip'].fn
+
+
+def _seq_len_get(it, v):
+    """(length, element-at-index) of a symbolic sequence, or None"""
+    if isinstance(v, NDArray) and v.rank >= 1 and conc(v.shape[0]) is None:
+        snap = v.copy()
+        return v.shape[0], ((lambda i: snap.row(i)) if v.rank == 2 else (lambda i: snap.at(i)))
+    if isinstance(v, SymList) and M.try_iterate(it, v) is None:
+        return v.n, (lambda i: v.get(i))
+    return None
+
+
+def _b_zip(it, args, kw):
+    args = [_named_elements(it, a) for a in args]
+    parts = [_seq_len_get(it, a) for a in args]
+    if not any(p is not None for p in parts):
+        return _orig_zip(it, args, kw)
+    if any(p is None for p in parts):
+        raise Unsupported('zip of symbolic and concrete sequences')
+    n = zi(parts[0][0])
+    for ln, _ in parts[1:]:
+        if not implied(it, zi(ln) == n):
+            n = z3.If(zi(ln) < n, zi(ln), n)
+    r = EnumList(norm(z3.simplify(n)), lambda i: tuple(g(i) for _, g in parts))
+    r.zipped = list(args)
+    return r
+
+
+M.BUILTINS['zip'] = Builtin('zip', _b_zip)
+
+# ---- an array-list of messages/objects used as a numpy object array: np.asarray(xs)[mask] is the order-preserving filter
+_orig_subscript = M.subscript
+
+
+def _subscript_list_by_mask(it, base, idx):
+    if isinstance(base, SymList) and not isinstance(base, EnumList) and isinstance(idx, NDArray) and idx.dtype == 'bool' and idx.rank == 1:
+        same_dim(it, base.n, idx.shape[0])
+        cnt, sel, rnk = mask_info(it, idx)
+        run = it.run
+        arr = run.fresh('picked', base.arr.sort())
+        src_arr = base.arr
+        fact(run, QA(cnt, lambda t: arr[t] == src_arr[sel(t)]))
+        r = SymList(cnt, arr, base.elem)
+        mf = idx.fn
+        run.__dict__.setdefault('np_filters', []).append(dict(n=cnt, arr=arr, src=(lambda j: sel(j)), cond=(lambda i: mf(i)), parent=M.snapshot(base),
+                                                           complete_at=(lambda c: z3.Implies(z3.And(c >= 0, c < zi(base.n), mf(c)),
+                                                                                            z3.And(rnk(c) >= 0, rnk(c) < cnt, sel(rnk(c)) == c)))))
+        return r
+    return _orig_subscript(it, base, idx)
+
+
+M.subscript = _subscript_list_by_mask
+
+_prev_np_array = _np_array
+
+
+def _np_array_objects(it, args, kw):
+    v = args[0]
+    if isinstance(v, SymList) and isinstance(v.elem, pm.MsgSchema):
+        return SymList(v.n, v.arr, v.elem)       # object array of messages: only indexing by a boolean mask / list() are modelled
+    return _prev_np_array(it, args, kw)
+
+
+for _pkg in ('numpy', 'jax.numpy'):
+    EXTERNAL[_pkg + '.array'] = Builtin('np.array', _np_array_objects)
+    EXTERNAL[_pkg + '.asarray'] = Builtin('np.asarray', _np_array_objects)
